@@ -28,6 +28,13 @@ GS = {"flavor": "f64", "kind": "gauge", "threads": ["t1", "t2", "t3"], "starve":
       "scripts": {"t1": [{"k": "sub", "v": 1}, {"k": "get"}], "t2": [{"k": "add", "v": 2}] * 16, "t3": [{"k": "dec"}, {"k": "get"}]}}
 
 
+# non-finite values (the float gauge over the extended reals): +Inf - Inf = NaN, NaN absorbs add/sub but not set
+GX1 = {"flavor": "f64", "kind": "gauge", "threads": ["t1", "t2"], "pre": [{"k": "set", "v": "+Inf"}],
+       "scripts": {"t1": [{"k": "add", "v": "-Inf"}, {"k": "get"}], "t2": [{"k": "set", "v": 5}, {"k": "inc"}, {"k": "get"}]}}
+GX2 = {"flavor": "f64", "kind": "gauge", "threads": ["t1", "t2", "t3"], "pre": [{"k": "set", "v": "NaN"}],
+       "scripts": {"t1": [{"k": "add", "v": 1}, {"k": "get"}], "t2": [{"k": "set", "v": 5}, {"k": "sub", "v": 2}, {"k": "get"}], "t3": [{"k": "sub", "v": "+Inf"}, {"k": "get"}]}}
+
+
 def run(ctx):
     exe = build_harness()
     stats, samples = new_stats(), []
@@ -41,7 +48,11 @@ def run(ctx):
         # (no edge-cover replay here: the model's integers do not distinguish -0.0 from +0.0, the code's compare-exchange does)
         run_scenario(ctx, "C11", exe, G0, "G0", stats, samples, *O, model=False, nrandom=400)
         run_scenario(ctx, "C11", exe, GS, "GS", stats, samples, *O, model=False, nrandom=20, check=False)
+        run_scenario(ctx, "C11", exe, GX1, "GX1", stats, samples, *O, model=False, nrandom=150, check=False, kinds=["gauge", "gaugevec_child"])
+        run_scenario(ctx, "C11", exe, GX2, "GX2", stats, samples, *O, model=False, nrandom=150, check=False)
     else:
+        run_scenario(ctx, "C11", exe, GX1, "GX1", stats, samples, *O, model=False, nrandom=5000, check=False, kinds=["gauge", "gaugevec_child"])
+        run_scenario(ctx, "C11", exe, GX2, "GX2", stats, samples, *O, model=False, nrandom=5000, check=False, kinds=["gauge", "gaugevec_child"])
         run_scenario(ctx, "C11", exe, G0, "G0", stats, samples, *O, model=False, nrandom=8000, kinds=["gauge", "gaugevec_child"])
         run_scenario(ctx, "C11", exe, GS, "GS", stats, samples, *O, model=False, nrandom=500, check=False)
         for sc, lb in ((G2s, "G2s"), (J2max, "J2max"), (J2bmin, "J2bmin"), (dict(G2b, scale=2.0 ** -1070), "G2bs"), (dict(J3, base=2 ** 63 - 2), "J3max")):
@@ -53,7 +64,7 @@ def run(ctx):
     prove_core(ctx)
     finish_cov(ctx, stats, samples, "AtomImpl exhaustively checked by TLC (Atomicity = refinement of the atomic gauge, Termination; also with spurious CAS failure); "
                "every edge replayed in the real Gauge/IntGauge; every distinct history judged by LinGauge (linearizability incl. the final value)")
-    ctx.assumptions += ["sequentially consistent executions", "2-3 threads, 3 calls each, amounts from {1,2,4,8}; float gauges also at scale 2^-60, integer gauges also offset to the i64 boundaries (wrapping)"]
+    ctx.assumptions += ["sequentially consistent executions", "2-3 threads, 3 calls each, amounts from {1,2,4,8}; float gauges also at scale 2^-60, holding -0.0, and over the extended reals (+Inf, -Inf, NaN as sentinels of LinGauge); integer gauges also offset to the i64 boundaries (wrapping)"]
 
 
 def replay(path):
